@@ -420,6 +420,9 @@ D = "d42/declaration/types/_dict_schema.py"
 A = "d42/declaration/types/_any_schema.py"
 MR = "d42/utils/_make_required.py"
 MUTANTS = [
+    {"name": "validator treats everything after the relaxed marker as allowed-as-is", "rule": "ADD-VALIDATES",
+     "edits": [("d42/validation/_validator.py", "        for key, (val, is_optional) in schema.props.keys.items():\n            if is_ellipsis(key):\n                continue",
+                "        for key, (val, is_optional) in schema.props.keys.items():\n            if is_ellipsis(key):\n                break")]},
     {"name": "__add__ filters `...`", "rule": "ADD",
      "edits": [(D, "        merged_keys = {**self_keys, **other_keys}", "        merged_keys = {k: v for k, v in {**self_keys, **other_keys}.items() if not is_ellipsis(k)}")]},
     {"name": "make_required can set True", "rule": "MAKE-REQUIRED",
